@@ -117,6 +117,8 @@ pub const SLOT: u64 = 32;
 pub const NSLOTS: u64 = 256;
 pub const CASE_AREA: u64 = SLOT * NSLOTS;
 pub const CASE_MAX: usize = 1 << 16;
+/// after the case area: the OS thread id of the thread that owns each slot (8 bytes per slot)
+pub const TID_AREA: u64 = CASE_AREA + 16 + CASE_MAX as u64;
 
 pub struct Iso {
     pub file: std::fs::File,
@@ -137,6 +139,13 @@ pub fn iso() -> Option<&'static Iso> {
         Some(Iso { file, only })
     })
     .as_ref()
+}
+/// Records which OS thread owns slot `t`, so that the parent can ask how much CPU time that very
+/// thread has used (a block that does not move only counts as stalled while its thread is burning CPU).
+fn tid_write(iso: &Iso, t: u64) {
+    use std::os::unix::fs::FileExt;
+    let tid: u64 = std::fs::read_link("/proc/thread-self").ok().and_then(|p| p.file_name().and_then(|n| n.to_str().and_then(|x| x.parse().ok()))).unwrap_or(0);
+    let _ = iso.file.write_at(&tid.to_le_bytes(), TID_AREA + (t % NSLOTS) * 8);
 }
 fn slot_write(iso: &Iso, t: u64, sweep: u64, block: u64, running: u64, beat: u64) {
     use std::os::unix::fs::FileExt;
@@ -228,6 +237,8 @@ where
             let mut acc = Acc::default();
             if s == sweep && b < nblocks {
                 slot_write(iso, 0, sweep, b, 1, 1);
+                // a block of a block-wise scope is one case (sweep_strings announces its strings itself)
+                announce_case(b, &format!("(block {b} of block-wise scope #{sweep})"));
                 f(b, &mut acc);
                 slot_write(iso, 0, sweep, b, 0, 2);
             }
@@ -245,6 +256,9 @@ where
             hs.push(sc.spawn(|| {
                 let mut acc = Acc::default();
                 let t = tid.fetch_add(1, Ordering::Relaxed);
+                if let Some(iso) = iso() {
+                    tid_write(iso, t);
+                }
                 let mut beat = 0u64;
                 loop {
                     if budget.expired() {
